@@ -95,24 +95,42 @@ Lemma tl_keep_cons B s w : B <= w_off w -> tl_keep B s (upd_txlog s (w :: s_txlo
 Proof. intros L off x R E. sp. apply tl_read_cons_keep; auto. lia. Qed.
 
 
+(* effect of the critical section on the live chain, the AHT and the commit waiters *)
+Definition fx_fail (s s4 : state) : Prop :=
+  live s4 = live s /\ s_inmem s4 = s_inmem s /\
+  firstn (N.to_nat (s_inmem s)) (s_aht s4) = firstn (N.to_nat (s_inmem s)) (s_aht s) /\
+  s_wait s4 = s_wait s.
+Definition fx_ok (s s4 : state) : Prop :=
+  exists pe w,
+    live s4 = live s ++ [cent pe] /\ s_inmem s4 = s_inmem s + 1 /\ s_inmem s <= lenN (s_aht s) /\
+    s_aht s4 = firstn (N.to_nat (s_inmem s)) (s_aht s) ++ [pe_alh pe] /\
+    tl_read (s_txlog s4) (pe_off pe) = Some w /\ r_alh (w_rec w) = pe_alh pe /\
+    h_bltxid (r_hdr (w_rec w)) < s_inmem s + 1 /\
+    (0 < h_bltxid (r_hdr (w_rec w)) ->
+       h_blroot (r_hdr (w_rec w)) = mth H (firstn (N.to_nat (h_bltxid (r_hdr (w_rec w)))) (s_aht s))) /\
+    (forall x, In x (s_wait s4) -> In x (s_wait s) \/ x = (s_inmem s + 1, pe_alh pe)).
+
 (* the critical section: the state it leaves is either an intermediate invariant state s4, or what
    mayCommit makes of s4 (unsynced store, after a successful precommit) *)
 Lemma locked_cases s c stale : Inv s ->
   exists s4, Inv s4 /\ clog_keep s s4 /\ tl_keep (s_ptls s) s s4 /\
              (fst (locked H s c stale) = s4 \/ fst (locked H s c stale) = fst (may_commit s4)) /\
              (* every write it adds to the tx log starts at precommittedTxLogSize *)
-             (forall w, In w (s_txlog s4) -> In w (s_txlog s) \/ w_off w = s_ptls s).
+             (forall w, In w (s_txlog s4) -> In w (s_txlog s) \/ w_off w = s_ptls s) /\
+             (fx_fail s s4 \/ fx_ok s s4).
 Proof.
   intros HI. unfold locked.
   assert (K0 : clog_keep s s /\ tl_keep (s_ptls s) s s).
   { pose proof HI as []. split; [apply clog_keep_refl; auto|apply tl_keep_refl]. }
   assert (N0 : forall w, In w (s_txlog s) -> In w (s_txlog s) \/ w_off w = s_ptls s) by (intros; left; auto).
+  assert (F0 : fx_fail s s \/ fx_ok s s) by (left; repeat split).
   destruct (find_pend s c) as [q|]; [|exists s; tauto].
   pose proof (Inv_upd_pend s (del_pend s c) HI) as HI0.
   set (s0 := upd_pend s (del_pend s c)) in *.
   assert (K1 : clog_keep s s0 /\ tl_keep (s_ptls s) s s0).
   { split; [apply clog_keep_same; reflexivity|apply tl_keep_same; reflexivity]. }
   assert (N1 : forall w, In w (s_txlog s0) -> In w (s_txlog s) \/ w_off w = s_ptls s) by (intros; left; auto).
+  assert (F1 : fx_fail s s0 \/ fx_ok s s0) by (left; repeat split).
   destruct (match q_exp q with | Some _ => _ | None => _ end) as [[ts bltxid]|e|];
     [|exists s0; tauto|exists s0; tauto].
   destruct (match q_precond q with | Some false => true | _ => false end); [exists s0; tauto|].
@@ -124,7 +142,8 @@ Proof.
     eapply tl_keep_trans; [apply K1|]. apply tl_keep_set_offset. apply N.le_refl. }
   assert (N2 : forall w, In w (s_txlog s1) -> In w (s_txlog s) \/ w_off w = s_ptls s).
   { intros w0 Hin. left. unfold s1 in Hin. sp. apply filter_In in Hin. tauto. }
-  destruct (if 0 <? bltxid then aht_root_tolerant H (s_aht s1) bltxid else Ok stale) as [blroot|e|];
+  assert (F2 : fx_fail s s1 \/ fx_ok s s1) by (left; repeat split).
+  destruct (if 0 <? bltxid then aht_root_tolerant H (s_aht s1) bltxid else Ok stale) as [blroot|e|] eqn:Eroot;
     [|exists s1; tauto|exists s1; tauto].
   destruct (N.leb_spec (s_inmem s1 + 1) bltxid) as [Lb|Lb]; [exists s1; tauto|].
   match goal with |- context [alh_of H ?h] => set (hdr := h) end.
@@ -140,13 +159,25 @@ Proof.
     eapply tl_keep_trans; [apply K2|]. apply tl_keep_cons. apply N.le_refl. }
   assert (N3 : forall w', In w' (s_txlog s2) -> In w' (s_txlog s) \/ w_off w' = s_ptls s).
   { intros w0 [<-|Hin]; [right; reflexivity|apply N2; exact Hin]. }
-  destruct (aht_reset (s_aht s2) (s_inmem s2)) as [a0|e|]; [|exists s2; tauto|exists s2; tauto].
+  assert (F3 : fx_fail s s2 \/ fx_ok s s2) by (left; repeat split).
+  destruct (aht_reset (s_aht s2) (s_inmem s2)) as [a0|e|] eqn:Ear; [|exists s2; tauto|exists s2; tauto].
+  assert (Ha0 : s_inmem s <= lenN (s_aht s) /\ a0 = firstn (N.to_nat (s_inmem s)) (s_aht s)).
+  { unfold aht_reset in Ear. change (s_aht s2) with (s_aht s) in Ear. change (s_inmem s2) with (s_inmem s) in Ear.
+    destruct (N.ltb_spec (lenN (s_aht s)) (s_inmem s)); [discriminate|]. injection Ear as <-. split; [lia|reflexivity]. }
+  destruct Ha0 as [Hlen0 Ea0].
   pose proof (Inv_upd_aht s2 (a0 ++ [alh]) HI2) as HI3.
   set (s3 := upd_aht s2 (a0 ++ [alh])) in *.
   assert (K4 : clog_keep s s3 /\ tl_keep (s_ptls s) s s3).
   { split; [apply clog_keep_same; reflexivity|].
     eapply tl_keep_trans; [apply K3|]. apply tl_keep_same. reflexivity. }
   assert (N4 : forall w', In w' (s_txlog s3) -> In w' (s_txlog s) \/ w_off w' = s_ptls s) by exact N3.
+  assert (F4 : fx_fail s s3 \/ fx_ok s s3).
+  { left. split; [reflexivity|]. split; [reflexivity|]. split; [|reflexivity].
+    change (s_aht s3) with (a0 ++ [alh]). rewrite Ea0.
+    rewrite firstn_app, firstn_firstn, Nat.min_id.
+    replace (N.to_nat (s_inmem s) - length (firstn (N.to_nat (s_inmem s)) (s_aht s)))%nat with 0%nat.
+    - cbn [firstn]. rewrite app_nil_r. reflexivity.
+    - rewrite firstn_length. unfold lenN in Hlen0. lia. }
   match goal with |- context [pb_put (s_buf s3) ?pe0] => set (pe := pe0) in * end.
   destruct (pb_put (s_buf s3) pe) as [b'|e|] eqn:Eput; [|exists s3; tauto|exists s3; tauto].
   (* the transaction is precommitted *)
@@ -183,14 +214,41 @@ Proof.
   assert (K5 : clog_keep s s4 /\ tl_keep (s_ptls s) s s4).
   { split; [apply clog_keep_same; reflexivity|].
     eapply tl_keep_trans; [apply K4|]. apply tl_keep_same. reflexivity. }
-  exists s4. split; [exact HI4|]. split; [apply K5|]. split; [apply K5|]. split; [|exact N4].
+  assert (F5 : fx_fail s s4 \/ fx_ok s s4).
+  { right. exists pe, w.
+    assert (Hput : pb_list b' = pb_list (s_buf s) ++ [pe]).
+    { pose proof HI3 as [].
+      assert (Hcases : pb_count (s_buf s3) < pb_size (s_buf s3) \/ pb_count (s_buf s3) = pb_size (s_buf s3)).
+      { pose proof (pb_count_le _ i_buf_ok). lia. }
+      destruct Hcases as [Hlt|Hfull]; [|rewrite (pb_put_full _ pe i_buf_ok Hfull) in Eput; discriminate].
+      destruct (pb_put_ok _ pe i_buf_ok Hlt) as (b'' & Eb & _ & Hl' & _).
+      rewrite Eput in Eb. injection Eb as <-. exact Hl'. }
+    split. { unfold live, clogC. subst s4. sp. rewrite Hput, map_app, app_assoc. reflexivity. }
+    split; [reflexivity|]. split; [exact Hlen0|].
+    split. { change (s_aht s4) with (a0 ++ [alh]). rewrite Ea0. reflexivity. }
+    split. { subst s4. sp. unfold pe. cbn [pe_off]. apply tl_read_cons_new. }
+    split; [reflexivity|].
+    split. { unfold w. cbn [w_rec r_hdr]. unfold hdr. cbn [h_bltxid]. change (s_inmem s1) with (s_inmem s) in Lb. exact Lb. }
+    split.
+    - unfold w. cbn [w_rec r_hdr]. unfold hdr. cbn [h_bltxid h_blroot]. intros Hb.
+      change (s_aht s1) with (s_aht s) in Eroot. change (s_inmem s1) with (s_inmem s) in Lb.
+      destruct (N.ltb_spec 0 bltxid) as [_|]; [|lia].
+      unfold aht_root_tolerant, aht_root_at in Eroot.
+      destruct (N.eqb_spec bltxid 0); [lia|].
+      destruct (N.eqb_spec (lenN (s_aht s)) 0) as [Ez|_]; [lia|].
+      destruct (N.ltb_spec (lenN (s_aht s)) bltxid); [cbn in Eroot; discriminate|].
+      injection Eroot as <-. reflexivity.
+    - intros x Hin. subst s4. sp.
+      match type of Hin with In _ (if ?b then _ else _) => destruct b end; [left; exact Hin|].
+      destruct Hin as [<-|Hin]; [right; reflexivity|left; exact Hin]. }
+  exists s4. split; [exact HI4|]. split; [apply K5|]. split; [apply K5|]. split; [|split; [exact N4|exact F5]].
   match goal with |- context [if ?b then (s4, _) else _] => destruct b end; [left; reflexivity|].
   right. destruct (may_commit s4) as [s5 r]. destruct r; reflexivity.
 Qed.
 
 Lemma locked_inv s c stale : Inv s -> Inv (fst (locked H s c stale)).
 Proof.
-  intros HI. destruct (locked_cases s c stale HI) as (s4 & HI4 & _ & _ & [-> | ->] & _); auto.
+  intros HI. destruct (locked_cases s c stale HI) as (s4 & HI4 & _ & _ & [-> | ->] & _ & _); auto.
   apply may_commit_inv. exact HI4.
 Qed.
 
